@@ -565,3 +565,26 @@ pub mod tests {
         }
     }
 }
+
+/// Verification hook (off unless `--cfg highway_verif`): Miri has no shim for the LLVM intrinsic
+/// behind `vshlq_u32` (`llvm.aarch64.neon.ushl`), so under the verification cfg a local definition
+/// of USHL (Arm ARM: per 32-bit lane, shift by the signed low byte of the count; left if positive,
+/// logical right if negative, 0 once the magnitude reaches the lane width) shadows the glob import.
+#[cfg(highway_verif)]
+#[inline]
+unsafe fn vshlq_u32(a: uint32x4_t, b: int32x4_t) -> uint32x4_t {
+    let a: [u32; 4] = core::mem::transmute(a);
+    let b: [i32; 4] = core::mem::transmute(b);
+    let mut r = [0u32; 4];
+    for i in 0..4 {
+        let s = i32::from(b[i] as i8);
+        r[i] = if s >= 32 || s <= -32 {
+            0
+        } else if s >= 0 {
+            a[i] << s
+        } else {
+            a[i] >> (-s)
+        };
+    }
+    core::mem::transmute(r)
+}
